@@ -266,6 +266,14 @@ func processDuplicates(values Values, traits TraitDescs, enumTypeName string) {
 
 	for _, duplicates := range data {
 		primary, safe := duplicates.getPrimary()
+		if len(duplicates) > 1 {
+			// only the primary definition of a duplicated value keeps its traits.
+			for i, td := range traits {
+				traits[i].Traits = slices.DeleteFunc(td.Traits, func(t TraitInstance) bool {
+					return t.OwningValue.Value == primary.Value && t.OwningValue.Name != primary.Name
+				})
+			}
+		}
 		if safe {
 			continue
 		}
@@ -275,13 +283,6 @@ func processDuplicates(values Values, traits TraitDescs, enumTypeName string) {
 			"If this is undesirable, please mark values other than the intended primary "+
 			"as Deprecated.",
 			duplicates.stringList(), enumTypeName, primary.Value, primary.Name)
-
-		// correct any traits.
-		for i, td := range traits {
-			traits[i].Traits = slices.DeleteFunc(td.Traits, func(t TraitInstance) bool {
-				return t.OwningValue.Value == primary.Value && t.OwningValue.Name != primary.Name
-			})
-		}
 	}
 	sort.Sort(traits)
 }
